@@ -417,7 +417,7 @@ func (c *FnCtx) execCall(x *ssa.Call, common *ssa.CallCommon, st *State, reach *
 	// a generic callee: parameter names come from the declaration, result and parameter types from the
 	// instantiation at this call site
 	useSig := fullSig
-	if fullSig.TypeParams() != nil && fullSig.TypeParams().Len() > 0 && sig.Params().Len() == fullSig.Params().Len() {
+	if ((fullSig.TypeParams() != nil && fullSig.TypeParams().Len() > 0) || (fullSig.RecvTypeParams() != nil && fullSig.RecvTypeParams().Len() > 0)) && sig.Params().Len() == fullSig.Params().Len() {
 		useSig = sig
 	}
 	results := c.applyContract(spec, useSig, names, args, st, reach, deferred)
